@@ -140,8 +140,10 @@ def gen_gfa1(rng):
 
 
 def gen_gfa2(rng):
+    # (a GFA2 segment carrying a custom tag named LN has no faithful GFA1 counterpart -- LN is the
+    #  predefined length tag there: not generated)
     d = G.gen_gfa2(rng, canonical=True, tags=rng.random() < 0.4, nog=0, nug=rng.choice([0, 1]), ngaps=rng.choice([0, 1]),
-                   nfrags=rng.choice([0, 1]), ncustom=rng.choice([0, 1]))
+                   nfrags=rng.choice([0, 1]), ncustom=rng.choice([0, 1]), alias_tags=False)
     # GFA1-compatible names only (a name with ',' or starting with '*'/'=' has no GFA1 counterpart)
     bad = [s for s in d.segments if not S.fm("name1", s["sid"]) or "," in s["sid"] or s["sid"].endswith(("+", "-"))]
     if bad:
